@@ -37,6 +37,19 @@ def model_cases(chk, depth, emit_depth, only_cmd=None, label="MC_Sequence"):
     return cc.parse_cases(r2.out)
 
 
+def model_cases_wfail(chk, depth, wmax):
+    """The same model with the connection refusing the w-th write of the ECR (w = 1 the command, 2.. its answers): every script up to
+    `depth` x every w <= wmax; P_C05 / P_C06 as invariants; the behaviours with a refused write are returned for replay."""
+    env = {"SEQ_DEPTH": depth, "SEQ_EMIT": "1", "SEQ_WFAIL": wmax}
+    r = vlib.tlc("sequence/MC_Sequence.tla", workers=vlib.NCPU, xmx="24g", env=env, timeout=7000)
+    vlib.tlc_must_pass(r, "MC_Sequence (refused writes)")
+    if r.violated:
+        raise vlib.ToolError("the sequence specification with refused writes violates %s:\n%s" % (r.violated, r.out[-1500:]))
+    chk.add_tlc("MC_Sequence with refused writes: 18 commands x every PT script up to %d frames x the connection refusing write 0..%d; "
+                "P_C05, P_C06 as invariants" % (depth, wmax), r)
+    return [c for c in cc.parse_cases(r.out) if c.get("wfail", 0) > 0]
+
+
 def upload_dir(wd):
     """The payload directory behind the model's announced ids 0x10 and 0x22."""
     d = os.path.join(wd, "payload")
@@ -92,12 +105,17 @@ def control_field_sweep(cases, thorough, seed):
     thorough also xx 00 / xx 1E / xx FF for every class), and a NACK with every code stands in place of the first reply. Built from a
     fault-free model case of the command (its request, acknowledgement and replies); judged by TraceSequence like every other record."""
     base = {}
-    for c in cases:
-        if c["cmd"] in base or len(c["frames"]) < 2:
+    for c in sorted(cases, key=lambda c: -len(c["frames"])):
+        if len(c["frames"]) < 2 or c.get("wfail"):
             continue
         if any(e["e"] == "y" and e["a"] == "err" for e in c["log"]) or c["frames"][0]["bytes"] != [128, 0, 0] or any(f["trunc"] for f in c["frames"]):
             continue
-        base[c["cmd"]] = c
+        oks = [e for e in c["log"] if e["e"] == "y" and e["a"] == "ok"]
+        # a fault-free exchange in which every frame was delivered: acknowledgement, (non-final replies,) final reply
+        if len(oks) != len(c["frames"]) - 1 or c["left"] != 0:
+            continue
+        if c["cmd"] not in base:
+            base[c["cmd"]] = c
     import random
     rnd = random.Random(seed)
     cfs = [(a, b) for a in (0x80, 0x84) for b in range(256)]
@@ -119,6 +137,13 @@ def control_field_sweep(cases, thorough, seed):
             for a, b in wide:
                 out.append(dict(keep, frames=[{"bytes": [a, b, 0], "trunc": False}] + c["frames"][1:], fault="cf-sweep", chunk=0))
                 out.append(dict(keep, frames=[c["frames"][0], {"bytes": [a, b, 0], "trunc": False}] + c["frames"][1:], fault="cf-sweep-reply", chunk=0))
+    # long exchanges: 63 / 64 / 65 / 130 / 300 non-final replies in front of the rest of a fault-free script
+    for cmd, c in sorted(base.items()):
+        fs = c["frames"]
+        if len(fs) >= 3:
+            keep = {k: v for k, v in c.items() if k not in ("frames", "log", "left")}
+            for n in (63, 64, 65, 130, 300):
+                out.append(dict(keep, frames=[fs[0]] + [fs[1]] * n + fs[2:], fault="long", chunk=0))
     return out
 
 
@@ -129,12 +154,24 @@ def run_sequence_check(chk, prefix, what):
     binary = vlib.harness_build()
     depth = 5 if thorough else 3
     cases = model_cases(chk, depth, 4 if thorough else 3)
+    cases += model_cases_wfail(chk, 3 if thorough else 2, 4 if thorough else 3)
     d = upload_dir(wd)
     for c in cases:
         if c["cmd"] == "WriteFile":
             c["dir"] = d
             c["block"] = 2
             c["announced"] = [16, 34]
+    # the request itself rotates over the boundary values of its type (reference-encoded): an exchange does not depend on what was asked
+    _, rp0 = export_tables(wd)
+    seqtab = json.load(open(rp0))["sequences"]
+    reqvals = {}
+    for v in cc.gen_values(chk, big=False):
+        if v.get("cls") == "canon":
+            reqvals.setdefault(v["ty"], []).append(v["in"])
+    for k, c in enumerate(cases):
+        opts = reqvals.get(seqtab.get(c["cmd"], {}).get("req", ""), [])
+        if opts and c["cmd"] != "WriteFile":
+            c["req"] = opts[k % len(opts)]
     # the connection takes a write whole, or one / two bytes of it at a time (rotating over the cases)
     for k, c in enumerate(cases):
         c["wchunk"] = [0, 0, 0, 1, 2][k % 5]
